@@ -37,9 +37,21 @@ CHECKS["C18"] = dict(engine="bvh-ctor", design_ref="DESIGN.md §6 C18", techniqu
                "340 batch length vectors: Batch::new panics iff ragged. exhaustive=true in the evidence; this is the right level because the space is finite and small.",
     level_note="Trusted: catch_unwind observes the panic; the generator enumerates the stated space; deserialization inputs are the twin's own empty-world serialization in three carriers.")
 
+CHECKS["C11"] = dict(engine="bvh-deser", design_ref="DESIGN.md §6 C11", technique="fault injection on serialized inputs + audit/ledger/model oracles on the result (native + Miri)",
+    level_text="Fault enumeration over inputs: structured mutations of valid serializations in three carriers (random 1-3 mutations; exhaustive single-token/element deletions, duplications and numeric alterations for small worlds). "
+               "Each input is deserialized under catch_unwind with the drop ledger, allocator audit and payload checks on; every Ok world is audited through verif_dump and driven through a follow-up history.",
+    level_note="Trusted: the mutators in bvh/src/deser.rs reach the stated input classes; carrier-crate panics are discarded; lengths capped at input size. Miri covers a small sample.")
+
+CHECKS["C17"] = dict(engine="bvh-faults", design_ref="DESIGN.md §6 C17", technique="panic-injection at every callback position + ledger/allocator/poison oracles (subprocess shards, Miri sample)",
+    level_text="Fault enumeration: for each operation that calls user code a dry run counts the callbacks, then a panic is injected at every position k on a fresh identical world; after unwinding every stored value is read, further operations run and "
+               "all worlds are dropped. Violations are keyed by (operation, callback kind); the six (operation, callback) pairs with a recorded known finding print KNOWN-FINDING, anything else fails.",
+    level_note="Trusted: fuses in the payload callbacks fire exactly once; ledger/poison/allocator audit observe double drops and use of dropped values; small worlds (<=9 entities, multi-column archetypes). A crash is attributed by the last flushed CASE line.")
+
 NOT_APPLICABLE = {}
 
 ENGINES = [
+    dict(name="bvh-faults", path="/verif/bvh/src/faults.rs", serves_properties=["C17"], kind_free_text="panic-injection monitor: fuse at the k-th user callback, then ledger / allocator / payload oracles over the aftermath"),
+    dict(name="bvh-deser", path="/verif/bvh/src/deser.rs", serves_properties=["C11", "C04"], kind_free_text="hostile-input monitor: mutated serializations -> Deserialize under panic/ledger/allocator/audit/model oracles"),
     dict(name="bvh-ctor", path="/verif/ctor/src/main.rs", serves_properties=["C18"], kind_free_text="exhaustive constructor / batch precondition enumeration under catch_unwind"),
     dict(name="bvh-seq", path="/verif/bvh/src/seq.rs", serves_properties=["C01", "C02", "C03", "C04", "C05", "C06", "C09", "C10", "C13", "C15", "C16"],
          kind_free_text="sequential-history runtime monitor: generated op histories on real World vs reference model, drop ledger, allocator audit, structural audit; same binaries under Miri and ASan"),
